@@ -211,19 +211,36 @@ def shard_section_history(ctx, arg):
         check_section_history(ctx, {"formatter": fmt_kind, "sections": 2, "steps": [list(first)] + [list(r) for r in rest]}, True)
 
 
-SETTERS = [("quiet", True), ("quiet", False), ("verbosity", 0), ("verbosity", 1), ("verbosity", 2), ("verbosity", 4)]
+SETTERS = [("quiet", True), ("quiet", False), ("verbosity", 0), ("verbosity", 1), ("verbosity", 2), ("verbosity", 4),
+           ("stream", "buffer"), ("stream", "null")]
 
 
 def check_setter_history(ctx, case, by_construction=False):
     """The gate depends on the CURRENT quiet / verbosity settings only, whatever sequence of setter calls led there."""
     kind, fmt_kind, seq = case["kind"], case["formatter"], case["setters"]
     ctx.case("setter-history", case, True, distinct_by_construction=by_construction)
-    obj, streams = build(kind, fmt_kind)
+    from clikit.io.output_stream import BufferedOutputStream, NullOutputStream
+
+    if kind == "output-from-null":
+        # an output that starts on a stream which discards everything and is redirected later
+        from clikit.api.io import Output
+
+        obj, streams = Output(NullOutputStream(), make_formatter(fmt_kind)), {"out": None, "err": None}
+    else:
+        obj, streams = build(kind, fmt_kind)
+    current = streams["out"]  # the stream the standard output writes to at the moment (None: a null stream)
+    retired = []
     quiet, verbosity = False, 0
     for name, value in seq:
         if name == "quiet":
             obj.set_quiet(value)
             quiet = value
+        elif name == "stream":
+            target = obj if hasattr(obj, "set_stream") else obj.output
+            if current is not None:
+                retired.append(current)
+            current = BufferedOutputStream() if value == "buffer" else None
+            target.set_stream(current if current is not None else NullOutputStream())
         else:
             obj.set_verbosity(value)
             verbosity = value
@@ -239,8 +256,12 @@ def check_setter_history(ctx, case, by_construction=False):
         except Exception as e:
             ctx.fail("setter-history", "C10.gate", case, "write_line returns", {"flags": flags}, exc=e)
             return
-        present = marker in streams["out"].fetch()
-        want = expected_open(verbosity, flags, quiet)
+        present = current is not None and marker in current.fetch()
+        want = expected_open(verbosity, flags, quiet) and current is not None
+        if any(marker in r.fetch() for r in retired):
+            ctx.fail("setter-history", "C10.nothing-else", case, "nothing reaches a stream that was replaced",
+                     {"flags": flags}, sig="setter-history-retired-stream")
+            return
         if present != want:
             ctx.fail("setter-history", "C10.gate" if want else "C10.nothing-else", case,
                      {"flags": flags, "quiet": quiet, "verbosity": verbosity, "written": want}, {"written": present},
@@ -300,7 +321,7 @@ def run(ctx):
     ctx.exhaustive("gate", True, "object kinds x reflected methods x formatter x verbosity x flags x quiet x text {unique marker, empty, newline only, blanks}")
     options = [(si, fl, q, v) for si in (0, 1) for fl in (None, 1, 4) for q in (0, 1) for v in (0, 4)]
     ctx.parallel("shard_section_history", [(k, o) for k in ("plain", "ansi") for o in options])
-    ctx.parallel("shard_setter_history", [(k, f, st_) for k in ("output", "output-section", "buffered-io") for f in ("plain", "ansi")
+    ctx.parallel("shard_setter_history", [(k, f, st_) for k in ("output", "output-section", "buffered-io", "output-from-null") for f in ("plain", "ansi")
                                            for st_ in SETTERS])
-    ctx.exhaustive("setter-history", True, "3 object kinds x formatter x all sequences of 1-4 setter calls over {quiet on/off, verbosity 0/1/2/4}, then a write with every flag word")
+    ctx.exhaustive("setter-history", True, "4 object kinds (one built on a null stream) x formatter x all sequences of 1-4 setter calls over {quiet on/off, verbosity 0/1/2/4, set_stream(buffer / null)}, then a write with every flag word")
     ctx.exhaustive("section-history", True, "2 sections x all histories of 3 write_line calls over section x flags {None,1,4} x quiet x verbosity {0,4} x formatter")
